@@ -1016,6 +1016,39 @@ theorem shared_lookup_not_overridden :
     Generated.SiteInfoTables.moduleGetOverriddenBy = [] := by
   decide +kernel
 
+/-! ### The kinds of the `stations` argument: text, containers, one-shot iterables -/
+
+/-- a one-shot iterable (generator, `map`/`filter` object, iterator, open file) gives the same combined answer as a
+container with the same items: the argument is passed over exactly once -/
+theorem stations_kind_irrelevant (src : Source) (l : List Str) (date : Option DateQ) (m : Module) :
+    siteInfoGetArg src (.iter (.oneShot l)) date = siteInfoGetArg src (.iter (.reiterable l)) date ∧
+    siteInfoGetHistoryArg src (.iter (.oneShot l)) = siteInfoGetHistoryArg src (.iter (.reiterable l)) ∧
+    moduleGetArg m src (.iter (.oneShot l)) date = moduleGetArg m src (.iter (.reiterable l)) date ∧
+    moduleGetHistoryArg m src (.iter (.oneShot l)) = moduleGetHistoryArg m src (.iter (.reiterable l)) :=
+  ⟨rfl, rfl, rfl, rfl⟩
+
+/-- **combined = modules for every kind of argument**: the combined query on the argument as given holds, for every
+station it hands out and every module, the answer that module gives when asked with (a fresh copy of) the same
+argument -/
+theorem combined_eq_modules_arg (src : Source) (a : StationsArg) (date : Option DateQ)
+    (all : List (Str × List (Module × Val))) (hall : siteInfoGetArg src a date = .ok all)
+    (m : Module) (res : List (Str × Val)) (hres : moduleGetArg m src a (dateFor m date) = .ok res)
+    (s : Str) (hs : s ∈ normStations a.once) (hclean : Clean s) :
+    ∃ ms, dictGet? all s = some ms ∧ dictGet? ms m = some (pick res s) :=
+  combined_eq_modules src a.once date all hall m res hres s hs hclean
+
+/-- why the combined query must not hand the caller's iterable on to the modules: what is left of a one-shot iterable
+after the first pass is empty, and a module asked with it answers with the empty dictionary — not with its answer
+for the stations -/
+theorem drained_one_shot_answers_nothing (src : Source) (l : List Str) (date : Option DateQ) (m : Module) :
+    (Iterable.oneShot l).drain.2 = .oneShot [] ∧
+    moduleGetArg m src (.iter (Iterable.oneShot l).drain.2) date = .ok [] ∧
+    (Iterable.reiterable l).drain.2 = .reiterable l := by
+  refine ⟨rfl, ?_, rfl⟩
+  simp [moduleGetArg, StationsArg.once, Iterable.drain, moduleGet, normStations, collect]
+
+example : (StationsArg.iter (.oneShot [[111, 115, 108, 115]])).once = .list [[111, 115, 108, 115]] := rfl
+
 /-! ### Non-vacuity -/
 
 example : histGet [((0, 10), 1), ((10, 20), 2)] 10 = some 2 := by decide +kernel
@@ -1105,3 +1138,6 @@ end Midgard.Props.C18
 #print axioms Midgard.Props.C18.clean_of_plain
 #print axioms Midgard.Props.C18.combined_eq_modules_list
 #print axioms Midgard.Props.C18.clean_needed
+#print axioms Midgard.Props.C18.stations_kind_irrelevant
+#print axioms Midgard.Props.C18.combined_eq_modules_arg
+#print axioms Midgard.Props.C18.drained_one_shot_answers_nothing
